@@ -337,8 +337,34 @@ func c13Str(r *rng, id string) {
 	for i := 0; i < 60 && len(data) > 0; i++ {
 		off := r.intn(len(data))
 		mut := append([]byte(nil), data...)
-		mut[off] ^= byte(1 << uint(r.intn(8)))
-		run("flip", off, mut, enc == "n") // a flipped plaintext stream may still be complete and valid
+		bit := r.intn(8)
+		mut[off] ^= byte(1 << uint(bit))
+		// a flipped plaintext stream may still be complete and valid; so may a sealed one whose version
+		// byte is toggled between 0 and 1 (not covered by the seal: C14's recorded finding, not a decoding failure)
+		verToggle := enc != "n" && off == len2(c.label)+5 && bit == 0
+		run("flip", off, mut, enc == "n" || verToggle)
+	}
+	// well-framed compression envelopes around degenerate contents: nothing at all, a lone type
+	// byte of each kind, and an envelope whose compressed body is itself empty
+	degenerate := [][]byte{nil, {0}, {1}, {2}, {3}, {4}, {5}, {6}, {7}, {8}, {9}, {10}, {11}, {12}, {200}}
+	for di, inner := range degenerate {
+		env, err := ml.VerifCompressPayload(inner)
+		if err != nil {
+			continue
+		}
+		if enc != "n" {
+			if env, err = ml.VerifEncryptLocalState(snd.m, env, c.label); err != nil {
+				continue
+			}
+		}
+		fc := newFragConn(nil, nil)
+		ml.AddLabelHeaderToStream(fc, c.label)
+		run("degenerate", di, append(fc.written(), env...), len(inner) > 0 && inner[0] == 8)
+	}
+	if emptyBody := []byte{9, 0x82, 0xa4, 'A', 'l', 'g', 'o', 0, 0xa3, 'B', 'u', 'f', 0xa0}; enc == "n" {
+		fc := newFragConn(nil, nil)
+		ml.AddLabelHeaderToStream(fc, c.label)
+		run("degenerate", 99, append(fc.written(), emptyBody...), false)
 	}
 	if g := runtime.NumGoroutine(); g > g0+2 {
 		time.Sleep(20 * time.Millisecond)
@@ -429,9 +455,39 @@ func c13Caps(r *rng, id string) {
 		}
 		res = append(res, "handoff-depth="+st)
 	}
+	// the same for every message kind that goes through the handoff queues (alive has a queue of its own)
+	for _, kind := range []string{"alive", "suspect", "dead"} {
+		blk2 := make(chan struct{})
+		rn, err := newCnode(ccfg{name: "R3"})
+		if err != nil {
+			continue
+		}
+		rn.del.block = blk2
+		ml.VerifIngestPacket(rn.m, []byte{8, 1, 2}, fromAddr, time.Now()) // parks the handler in NotifyMsg
+		time.Sleep(20 * time.Millisecond)
+		for i := 0; i < 3000; i++ {
+			var msg []byte
+			switch kind {
+			case "alive":
+				msg = ml.VerifEncodeAlive(1, fmt.Sprintf("f%d", i), []byte{10, 1, byte(i >> 8), byte(i)}, 7946, nil, []uint8{1, 5, 2, 0, 0, 0})
+			case "suspect":
+				msg, _ = ml.VerifEncode(3, 1, fmt.Sprintf("f%d", i), []byte("x"))
+			default:
+				msg, _ = ml.VerifEncode(5, 1, fmt.Sprintf("f%d", i), []byte("x"))
+			}
+			ml.VerifIngestPacket(rn.m, msg, fromAddr, time.Now())
+		}
+		depth := ml.VerifHandoffLen(rn.m)
+		close(blk2)
+		st := "ok"
+		if depth > 1024 {
+			st = fmt.Sprintf("queued:%d", depth)
+		}
+		res = append(res, "handoff-depth-"+kind+"="+st)
+		rn.m.Shutdown()
+	}
 	emit("C13 caps id=%s res=%s", id, strings.Join(res, ","))
 }
-
 
 // (e) well-formed messages whose fields sit on the boundaries the handlers index or compare: version
 // vectors of 0..8 bytes, addresses of every length around 4 and 16, empty and long names, metadata at
